@@ -9,6 +9,7 @@
 //   -DCFG_CAT=0|1|2     0 = int, 1 = declared trivially relocatable, 2 = non relocatable (self-referential)
 //   -DCFG_ALLOC=0|1     0 = amc::BasicAllocatorWrapper over an instrumented basic allocator (has reallocate),
 //                       1 = std-like ledger allocator (no reallocate)
+//                       2 = std-like ledger allocator with its own byte-copying reallocate (a user allocator)
 #ifndef CFG_NO_EXTRAS
 #define AMC_NONSTD_FEATURES
 #endif
@@ -53,6 +54,8 @@ static_assert(!amc::is_trivially_relocatable<Elem>::value, "NTR");
 
 #if CFG_ALLOC == 0
 using Alloc = amc::BasicAllocatorWrapper<Elem, InstrBasicAllocator>;
+#elif CFG_ALLOC == 2
+using Alloc = ReallocLedgerAllocator<Elem>;
 #else
 using Alloc = LedgerAllocator<Elem>;
 #endif
@@ -70,6 +73,8 @@ using Ref = std::vector<int>;
 #ifdef CFG2_FL
 #if CFG2_ALLOC == 0
 using Alloc2 = amc::BasicAllocatorWrapper<Elem, InstrBasicAllocator>;
+#elif CFG2_ALLOC == 2
+using Alloc2 = ReallocLedgerAllocator<Elem>;
 #else
 using Alloc2 = LedgerAllocator<Elem>;
 #endif
